@@ -590,6 +590,11 @@ def explore_result_fate(fn, origin_blk, start_blk, dest_key, dest_ty_ix, io_vari
         if mode == 'whole':
             if not examined:
                 report('R9.1', 'result of %s is never examined before the loop repeats' % origin_desc, path, t['span'])
+            else:
+                # same fate as at a return: tested by is_ok / is_err only, then overwritten or left behind by the next
+                # iteration (seed C09-Q: a `result` local assigned once per FAT copy, only the last one returned)
+                report('R9.3', 'result of %s is only tested (is_ok/is_err) and its error value is discarded when the '
+                               'loop repeats' % origin_desc, path, t['span'])
         elif mode in ('payload', 'residual'):
             report('R9.4', 'error payload of %s is still pending when the loop repeats' % origin_desc, path, t['span'])
 
